@@ -26,18 +26,22 @@ def run(tier, replay=None):
     rep = C.Report(PID, tier, "exploration")
     binary = C.build()
     work = C.fresh_dir(C.WORK / PID)
-    if tier == "quick":
-        bfs, g = gen.run_generator("GenClos", work / "gen", dict(MaxLen=2))
-        sim, g2 = gen.run_generator("GenClos", work / "sim", dict(MaxLen=8), simulate=700, depth=9, seed=rep.seed, timeout=300)
-    else:
-        bfs, g = gen.run_generator("GenClos", work / "gen", dict(MaxLen=3), timeout=3000)
-        sim, g2 = gen.run_generator("GenClos", work / "sim", dict(MaxLen=12), simulate=6000, depth=13, seed=rep.seed, timeout=900)
     import random
-    sim = gen.dedupe([c for c in sim if len(c["hist"]) >= 3], lambda c: json.dumps(c["hist"], sort_keys=True))
+    key = lambda c: json.dumps(c["hist"], sort_keys=True)
+    if tier == "quick":
+        bfs, g = gen.run_generator("GenClos", work / "gen", dict(MaxLen=2), cfg="GenClosLight")
+        sim, g2 = gen.run_generator("GenClos", work / "sim", dict(MaxLen=8), cfg="GenClosLight", simulate=700, depth=9, seed=rep.seed, timeout=120)
+    else:
+        bfs, g = gen.run_generator("GenClos", work / "gen", dict(MaxLen=3), cfg="GenClosLight", timeout=3000)
+        sim, g2 = gen.run_generator("GenClos", work / "sim", dict(MaxLen=12), cfg="GenClosLight", simulate=6000, depth=13, seed=rep.seed, timeout=900)
+    bfs = gen.dedupe(bfs, key)
+    sim = [c for c in gen.dedupe(sim, key) if len(c["hist"]) >= 3]
     budget = 1500 if tier == "quick" else 30000
     if len(sim) > budget:
         sim = random.Random(rep.seed).sample(sim, budget)
-    cases = gen.dedupe(bfs + sim, lambda c: json.dumps(c["hist"], sort_keys=True))
+    nbfs = len(bfs)
+    cases, gx = gen.expand("GenClos", work / "expand", gen.dedupe(bfs + sim, key), "GenClosSel")
+    bfs = cases[:nbfs]
     for c in cases:
         c["id"] = hist_id(c["hist"])
     C.log(f"[{PID}] {len(bfs)} exhaustive histories + {len(cases) - len(bfs)} simulated long ones")
